@@ -82,7 +82,7 @@ func ParsePPSNALUnit(data []byte, spsMap map[uint32]*SPS) (*PPS, error) {
 				pps.RunLengthMinus1 = append(pps.RunLengthMinus1, rl)
 			}
 		case 2:
-			for iGroup := uint(0); iGroup <= pps.NumSliceGroupsMinus1; iGroup++ {
+			for iGroup := uint(0); iGroup < pps.NumSliceGroupsMinus1; iGroup++ { // One rectangle less than groups (7.3.2.2)
 				tl := reader.ReadExpGolomb()
 				pps.TopLeft = append(pps.TopLeft, tl)
 				br := reader.ReadExpGolomb()
@@ -94,8 +94,11 @@ func ParsePPSNALUnit(data []byte, spsMap map[uint32]*SPS) (*PPS, error) {
 		case 6:
 			// slice_group_id[i] has Ceil(Log2(num_slice_groups_minus1 +1) bits)
 			nrBits := bits.CeilLog2(pps.NumSliceGroupsMinus1 + 1)
-
-			for iGroup := uint(0); iGroup <= pps.NumSliceGroupsMinus1; iGroup++ {
+			pps.PicSizeInMapUnitsMinus1 = reader.ReadExpGolomb()
+			for i := uint(0); i <= pps.PicSizeInMapUnitsMinus1; i++ {
+				if reader.AccError() != nil {
+					break
+				}
 				sgi := reader.Read(nrBits)
 				pps.SliceGroupID = append(pps.SliceGroupID, sgi)
 			}
